@@ -42,22 +42,33 @@ func serveMain(args []string) int {
 		run.close()
 		return 0
 	case "aof-always":
+		// Every acknowledgement is made visible to the tracer as a one-byte write to ack.marker.
 		clk := NewVClock()
 		run, err := newPRunner(args[1], "always", false, false, clk)
 		if err != nil {
 			fmt.Fprintln(os.Stderr, err)
 			return 2
 		}
-		for i := 0; i < 25; i++ {
-			argv := genWriteOp(r, clk.NowNs(), true, true)
-			_, _ = run.exec(pOp{Caller: "emb", Argv: argv})
+		marker, err := os.Create(filepath.Join(args[1], "..", "ack.marker"))
+		if err != nil {
+			fmt.Fprintln(os.Stderr, err)
+			return 2
 		}
-		_, _ = run.exec(pOp{Caller: "emb", Argv: []string{"REWRITEAOF"}})
-		for i := 0; i < 5; i++ {
-			argv := genWriteOp(r, clk.NowNs(), true, true)
-			_, _ = run.exec(pOp{Caller: "emb", Argv: argv})
+		ack := func(caller string, argv []string) {
+			res, err := run.exec(pOp{Caller: caller, Argv: argv})
+			if err == nil && !strings.HasPrefix(res, "-") {
+				_, _ = marker.Write([]byte{1})
+			}
+		}
+		for i := 0; i < 40; i++ {
+			ack(pick(r, []string{"emb", "emb", "t1"}), genWriteOp(r, clk.NowNs(), true, true))
+		}
+		ack("emb", []string{"REWRITEAOF"})
+		for i := 0; i < 15; i++ {
+			ack(pick(r, []string{"emb", "t1"}), genWriteOp(r, clk.NowNs(), true, true))
 		}
 		run.close()
+		marker.Close()
 		return 0
 	}
 	fmt.Fprintln(os.Stderr, "unknown scenario", args[0])
@@ -214,5 +225,84 @@ func c10Strace(ctx *Ctx) {
 	ctx.Count("strace_events", int64(len(evs)))
 	if manifestVisible == 0 {
 		ctx.Inconclusive("strace lane saw no manifest rename")
+	}
+}
+
+// c02Strace observes the system calls of a server with the "always" sync policy: when a write is
+// acknowledged (the child marks each acknowledgement with a one-byte write to ack.marker), every byte
+// written to the append-only log and to the preamble so far must have been fsynced. This is
+// independent of the harness's own hooks: a change that keeps the hook but drops the fsync is seen here.
+func c02Strace(ctx *Ctx) {
+	root := mkScratch("c02strace")
+	defer os.RemoveAll(root)
+	dir := filepath.Join(root, "data")
+	_ = os.MkdirAll(dir, 0o755)
+	evs, info, ok := straceRun("aof-always", dir, ctx.Seed)
+	if !ok {
+		ctx.Inconclusive("strace unavailable")
+		ctx.Extra("strace_error", trunc(info, 300))
+		return
+	}
+	open := map[int]string{}
+	dirty := map[string]int{} // path -> bytes written since the last fsync
+	acks, logWrites, logSyncs := 0, 0, 0
+	isAOF := func(p string) bool { return strings.HasSuffix(p, "log.aof") || strings.HasSuffix(p, "preamble.bin") }
+	for _, e := range evs {
+		switch e.Call {
+		case "open":
+			if e.Ret >= 0 {
+				open[e.FD] = e.Path
+				if isAOF(e.Path) && strings.Contains(e.From, "O_TRUNC") {
+					dirty[e.Path] = 0
+				}
+			}
+		case "close":
+			delete(open, e.FD)
+		case "write":
+			p, ok := open[e.FD]
+			if !ok || e.Ret <= 0 {
+				continue
+			}
+			if isAOF(p) {
+				dirty[p] += e.Ret
+				logWrites++
+			}
+			if strings.HasSuffix(p, "ack.marker") {
+				acks++
+				ctx.Eval(1)
+				var bad []string
+				for q, n := range dirty {
+					if n > 0 {
+						bad = append(bad, fmt.Sprintf("%s (%d bytes)", filepath.Base(q), n))
+					}
+				}
+				ctx.Class(fmt.Sprintf("strace|ack|unsynced=%v", len(bad) > 0))
+				if len(bad) > 0 {
+					ctx.Violate(Violation{Kind: "syscall_order", Lane: "aof-strace",
+						What: fmt.Sprintf("sync policy always: acknowledgement number %d was given while %v had been written but not fsynced: a power loss here loses an acknowledged write", acks, bad),
+						Case: map[string]interface{}{"trace": info}, Key: "aof-strace-unsynced"})
+				}
+			}
+		case "fsync":
+			if p, ok := open[e.FD]; ok && e.Ret == 0 && isAOF(p) {
+				if dirty[p] > 0 {
+					logSyncs++
+				}
+				dirty[p] = 0
+			}
+		case "ftruncate":
+			if p, ok := open[e.FD]; ok && isAOF(p) {
+				// a truncation is a change of the file too: it must reach the disk before the next acknowledgement
+				dirty[p]++
+			}
+		}
+	}
+	ctx.Count("strace_acks", int64(acks))
+	ctx.Count("strace_log_writes", int64(logWrites))
+	ctx.Count("strace_log_fsyncs", int64(logSyncs))
+	ctx.Count("strace_events", int64(len(evs)))
+	ctx.Sample("aof-strace", map[string]interface{}{"acks": acks, "log_writes": logWrites, "log_fsyncs_after_write": logSyncs})
+	if acks < 20 || logWrites == 0 {
+		ctx.Inconclusive(fmt.Sprintf("strace lane saw %d acknowledgements and %d log writes", acks, logWrites))
 	}
 }
